@@ -123,6 +123,11 @@ impl ChunkSerializer {
             iteration = iteration + 1;
         }
 
+        if slices.is_empty() {
+            // A zero length message still needs a (header only) chunk, otherwise it is never sent
+            slices.push(&message.data[..]);
+        }
+
         for (idx, slice) in slices.into_iter().enumerate() {
             self.add_chunk(
                 &mut bytes,
